@@ -343,3 +343,61 @@ def _shape(e):
     if e[0] == 'cast':
         return _shape(e[2])
     return (e[0],)
+
+
+def open_ended_rule(ctx, facts, cfg, rid, TOP, prefixes, floor, who):
+    """No copy from the input packet into the output, anywhere below the re-emitting entry point TOP, takes an open-ended range
+    `packet[a..]`: inside a record walk that emits everything behind the current record a second time."""
+    if facts.fn(TOP) is None:
+        ctx.missing(rid, TOP)
+        return
+    seen, _, _, _ = facts.reach([TOP])
+    n = 0
+    for k in sorted(seen):
+        if not (k.startswith(tuple(prefixes)) or k.startswith('parsed_packet::ParsedPacket::copy_')):
+            continue
+        f = facts.fns[k]
+        defs = F.single_defs(f)
+        for bi, b in F.blocks(f):
+            t = b['term']
+            if t['k'] == 'call' and (F.call_path(t) or '').split('::')[-1] in ('extend', 'extend_from_slice') and len(t['args']) > 1:
+                cur = t['args'][1]
+                idx = None
+                base_packet = False
+                for _ in range(10):
+                    if cur.get('k') not in ('copy', 'move'):
+                        break
+                    pl = cur['place']
+                    if any(fl[1] == 'packet' for fl in F.fields_of(pl)):
+                        base_packet = True
+                    d = defs.get(pl['local'])
+                    if d is None:
+                        break
+                    if d[0] == 'call':
+                        p = F.call_path(d[1]) or ''
+                        if 'ndex' in p and len(d[1]['args']) > 1:
+                            e_i = F.expr(f, defs, d[1]['args'][1])
+                            bounded = e_i[0] == 'agg' and e_i[1] in ('std::ops::Range', 'std::ops::RangeTo', 'std::ops::RangeInclusive', 'std::ops::RangeToInclusive')
+                            if idx is None or bounded:
+                                idx = e_i if (idx is None or bounded) else idx
+                            cur = d[1]['args'][0]
+                            continue
+                        if p.endswith('ParsedPacket::packet') or p.endswith('::packet'):
+                            base_packet = True
+                        break
+                    rv = d[1]
+                    if rv['k'] in ('use', 'cast'):
+                        cur = rv['x']
+                    elif rv['k'] in ('ref', 'rawptr'):
+                        cur = {'k': 'copy', 'place': rv['place']}
+                    else:
+                        break
+                if base_packet:
+                    n += 1
+                    open_ = idx is not None and idx[0] == 'agg' and idx[1] == 'std::ops::RangeFrom'
+                    ctx.instance(rid, '%s copies a bounded range of the input packet at %s' % (k.split('::')[-1], t['at']), ok=not open_, site=t['at'])
+                    if open_:
+                        ctx.violation(rid, k, 'open-ended-copy', '%s appends `packet[a..]` (everything up to the end of the input) to the output: records behind the copied one are emitted twice' % k.split('::')[-1],
+                                      site=t['at'], config=cfg)
+    if n < floor:
+        ctx.violation(rid, '<floor>', 'copies from the input packet', 'found %d copies from the input packet in %s, expected at least %d' % (n, who, floor), kind='below-floor')
